@@ -28,6 +28,7 @@ import common
 from c04 import BASE, Clock, from_us, install_clock, to_us
 
 GEN_DEPS = ("gen_system", "gen_uploadflow", "gen_idmanager", "gen_idspace", "gen_commands", "gen_tmux", "gen_placeholder")
+EXTRA_PROPS = ("C08wire",)
 ASSUMPTIONS = [
     "(path, mtime) determines a file's content (premise req_ok / world_ok of the theorems; the harness never rewrites a file without a new mtime)",
     "md5 is collision-free on the images used; json.dumps/json.loads of descriptions is an exact codec (codec_ok)",
